@@ -284,7 +284,15 @@ func compareSuffixArrays(a, b []suffix) int {
 
 	// If all compared suffixes are equal, the longer array is "smaller"
 	// This means "alpha_pre" < "alpha" (more suffixes = less stable)
-	return compareInt(len(b), len(a))
+	// One list continues: its next suffix decides, compared against "no suffix"
+	// (an additional pre-release suffix is older, an additional post-release suffix is newer)
+	if len(a) > minLen {
+		return compareSuffixes(a[minLen], suffix{name: "", number: 0})
+	}
+	if len(b) > minLen {
+		return compareSuffixes(suffix{name: "", number: 0}, b[minLen])
+	}
+	return 0
 }
 
 // compareSuffixes compares two individual suffixes
